@@ -59,7 +59,8 @@ UExt(R, tilt) == Div(One, Add(Add(R, RsiOf(tilt)), Rse))
 
 \* ---- the reference building ---------------------------------------------------
 AreaP == Qt(12, 1)            \* the element under test (partition, slab or wall of 4 x 3)
-AreaE == Qt(9, 1)             \* exterior wall of each space
+AreaE == Qt(9, 1)             \* exterior wall of this space (3 x 3); the neighbour's is 3.5 x 3, so that nothing
+AreaE2 == Qt(105, 10)         \* computed from the wrong space's elements goes unnoticed
 Height == Qt(25, 10)          \* storey height 2.5 m (so that no side wall has the area and perimeter of the 4 x 3 slab)
 \* net height of a space whose ceiling is the element under test: storey - thickness of the element
 HNet(c, whichSpace) ==
@@ -69,11 +70,14 @@ HNet(c, whichSpace) ==
 \* has the space its own exterior floor? (not when the element under test is its floor)
 HasFloor(c, whichSpace) == ~(whichSpace = "this" /\ c.tilt = "BOTTOM")
 \* A.U of the exterior elements of a space of the reference building
-\* (glazed cases: the exterior wall of each space carries a window of 2 m2 with U = 3: the wall counts with its net area)
+\* (glazed cases: the exterior wall of each space carries a window with U = 3, of 2 m2 in this space and 1.5 m2 in the neighbour: the wall counts with its net area)
 AreaW == Qt(2, 1)
+AreaW2 == Qt(15, 10)
 UWinRef == Qt(3, 1)
-UAe(c, whichSpace) == Add(IF c.glazed THEN Add(Mul(Sub(AreaE, AreaW), UExt(RRef, "SIDE")), Mul(AreaW, UWinRef))
-                                      ELSE Mul(AreaE, UExt(RRef, "SIDE")),
+UAe(c, whichSpace) == LET ae == IF whichSpace = "this" THEN AreaE ELSE AreaE2
+                          aw == IF whichSpace = "this" THEN AreaW ELSE AreaW2 IN
+                      Add(IF c.glazed THEN Add(Mul(Sub(ae, aw), UExt(RRef, "SIDE")), Mul(aw, UWinRef))
+                                      ELSE Mul(ae, UExt(RRef, "SIDE")),
                           IF HasFloor(c, whichSpace) THEN Mul(AreaP, UExt(RRef, "BOTTOM")) ELSE Qt(0, 1))
 Vol(c, whichSpace) == Mul(AreaP, HNet(c, whichSpace))
 Habitable(k) == k \in {"C", "U"}
@@ -103,7 +107,7 @@ Verdict(c) ==
     [] c.bounds = "INTERIOR" ->
          IF c.next = "dangling" THEN [k |-> "free"]
          ELSE IF c.next = "none" \/ Cond(c.this) = Cond(c.next)
-              THEN IF c.tilt = "SIDE" /\ c.next # "none"
+              THEN IF c.tilt = "SIDE"            \* through a vertical element the flow is horizontal, whatever lies behind it
                    THEN [k |-> "exact", t |-> Div(One, Add(R, Mul(Qt(2, 1), RsiHor)))]
                    ELSE [k |-> "between", lo |-> Div(One, Add(R, Qt(34, 100))), hi |-> Div(One, Add(R, Qt(20, 100)))]
               ELSE LET unc == IF Cond(c.this) THEN "next" ELSE "this"
